@@ -59,6 +59,35 @@ pub fn lookups<S: Sch>(rec: &mut Rec) {
     let mut rng = seed_rng(rec.seed, 20);
     let r = do_batch_open::<S>(&keys.ck, &polys, &comms, &q2, &mut sponge, &states, Some(&mut rng as &mut dyn RngCore));
     refused(rec, S::NAME, "batch_open", "unknown-polynomial", &id, r.is_ok(), "batch_open answered a query for a polynomial that was not supplied".into());
+    // (a') the unknown label takes the PLACE of a supplied polynomial (as many labels at the point as objects supplied),
+    // prover and verifier; the verifier is handed the honest proof for {p0,p1,p2} and the value of p2 for the unknown label
+    {
+        let mut q3 = qs.clone();
+        q3.insert(("p2".into(), (zl.clone(), z.clone())));
+        if let Ok(b3) = open_batch::<S>(&keys, &c, &[0, 1, 2], &q3, 0, rec.seed, 0) {
+            for (ghost, gone) in [("nope", "p2"), ("a-first", "p0"), ("p1x", "p1")] {
+                let mut qg = QuerySet::<S::Pt>::new();
+                let mut evg: Evaluations<S::Pt, S::F> = Evaluations::new();
+                for l in ["p0", "p1", "p2"] {
+                    let name = if l == gone { ghost } else { l };
+                    qg.insert((name.to_string(), (zl.clone(), z.clone())));
+                    if let Some(v) = b3.evals.get(&(l.to_string(), z.clone())) {
+                        evg.insert((name.to_string(), z.clone()), *v);
+                    }
+                }
+                let mut sponge = sponge_pre::<S::F>(0);
+                let mut rng = seed_rng(rec.seed, 20);
+                let r = do_batch_open::<S>(&keys.ck, &polys, &comms, &qg, &mut sponge, &states, Some(&mut rng as &mut dyn RngCore));
+                refused(rec, S::NAME, "batch_open", "unknown-polynomial", &id, r.is_ok(), format!("batch_open answered a query set in which the unknown label `{}` stands in place of `{}`", ghost, gone));
+                let d = check_batch::<S>(&keys, &comms, &qg, &evg, &b3.proof, 0, rec.seed, 0);
+                refused(rec, S::NAME, "batch_check", "unknown-polynomial", &id, d.accepted(), format!("batch_check accepted a claim about the unknown label `{}` (value and proof of `{}`): {}", ghost, gone, d.short()));
+                if let Ok(pf) = r {
+                    let d = check_batch::<S>(&keys, &comms, &qg, &evg, &pf, 0, rec.seed, 0);
+                    refused(rec, S::NAME, "batch_check", "unknown-polynomial", &id, d.accepted(), format!("batch_check accepted the prover's answer for the unknown label `{}`: {}", ghost, d.short()));
+                }
+            }
+        }
+    }
     // (b) verifier: commitment missing for a queried label
     let d = check_batch::<S>(&keys, &comms[..1], &qs, &b.evals, &b.proof, 0, rec.seed, 0);
     refused(rec, S::NAME, "batch_check", "missing-commitment", &id, d.accepted(), format!("batch_check accepted although the commitment of p1 was not supplied: {}", d.short()));
